@@ -64,6 +64,28 @@ def generate(rng, tier):
             builders.append(rg.CaseBuilder(batch, u, mode, port, qs, cache=cache,
                                            flags={"kind": kind + "-" + "+".join(fams), "ff": "1",
                                                   "modeok": "1" if rg.mode_ok(u, mode) else "0"}))
+    # local authoritative zones with delegations whose nameserver addresses are known locally (glue in the
+    # zone, or cached): in forwarding mode the question beneath the cut must still go to the forwarder only,
+    # in recursive mode to the delegated servers at the configured port and in the configured family
+    from . import netgen
+    k = 80 if tier == "quick" else 1500
+    tries = 0
+    while k > 0 and tries < 50 * k + 1000:
+        tries += 1
+        u = netgen.base_universe(rng, depth=rng.choice([2, 3]), max_ns=rng.choice([1, 2]),
+                                 fams=rng.choice([("46",), ("4", "6", "46"), ("4",), ("6",)]))
+        parts = netgen.sc_auth(rng, u)
+        if parts.kind != "auth-deleg":
+            continue
+        # every address of every nameserver host of the universe's zones is in the cache
+        for zn in u.chain:
+            for h in u.zones[zn].ns:
+                parts.cache += u.addr_rrs(h)
+        beneath = [q for q in parts.questions]
+        parts.questions = beneath[:8]
+        mode, fwd = netgen.pick_mode(rng, forwarding=(rng.random() < 0.6))
+        builders.append(netgen.build(batch, u, parts, mode, fwd, rng, hints=True, port=rng.choice([53, 5353])))
+        k -= 1
     outs = batch.run()
     return [b.line(outs) for b in builders]
 
